@@ -15,6 +15,11 @@
      * per field path: fs (all instrumentations, in order) -> middlewares entered last-listed first -> resolver
        -> fe (reverse order), each exactly once; fields of different paths may interleave; field events only inside the
        execution stage.
+   Subscription traces (sub = TRUE, recorded around py_gql.execution.subscribe): there is no query / parsing / validation
+   stage; the execution stage brackets the set-up of the source stream and is over when the stream is returned; the field
+   hooks of every delivered event then form one segment closed by the pseudo event "ev" (written by the harness when the result
+   of that event is delivered).  Every stage still fires AT MOST ONCE for the whole subscription, every segment obeys the field
+   discipline, and a segment leaves no field open.
    A trace is accepted when all events are consumed and the terminal condition holds; otherwise Reject fires at the first
    event no rule allows and the verdict line names position, event and reason.                                       *)
 EXTENDS Naturals, Sequences, FiniteSets, TLC, Json, IOUtils
@@ -24,6 +29,7 @@ vars == <<tid, l, stack, fld, seen, verdict>>
 Tr == Traces[tid].events
 NI == Traces[tid].ninstr
 NM == Traces[tid].nmw
+Sub == Traces[tid].sub
 Ev == Tr[l]
 StageOf(e) == CASE e \in {"qs", "qe"} -> "q" [] e \in {"ps", "pe"} -> "p" [] e \in {"vs", "ve"} -> "v" [] e \in {"es", "ee"} -> "x" [] OTHER -> "-"
 IsStart(e) == e \in {"qs", "ps", "vs", "es"}
@@ -34,14 +40,15 @@ Top == stack[Len(stack)]
 FIdx(p) == {k \in 1..Len(fld) : fld[k].p = p}
 FRec(p) == IF FIdx(p) = {} THEN [p |-> p, fs |-> 0, depth |-> 0, res |-> 0, out |-> 0, fe |-> 0] ELSE fld[CHOOSE k \in FIdx(p) : TRUE]
 SetF(r) == IF FIdx(r.p) = {} THEN Append(fld, r) ELSE [fld EXCEPT ![CHOOSE k \in FIdx(r.p) : TRUE] = r]
-InExec == \E k \in 1..Len(stack) : stack[k].s = "x" /\ stack[k].n = NI /\ stack[k].m = 0
+InExec == \/ \E k \in 1..Len(stack) : stack[k].s = "x" /\ stack[k].n = NI /\ stack[k].m = 0
+          \/ (Sub /\ "x" \in seen /\ stack = <<>>)
 More == verdict = "run" /\ l <= Len(Tr)
 
 \* ---- guards (one per rule) ---------------------------------------------------------------------------------------
 GStageStart1 == /\ IsStart(Ev.e) /\ Ev.i = 1
                 /\ StageOf(Ev.e) \notin seen
                 /\ (IF stack = <<>> THEN TRUE ELSE (Top.n = NI /\ Top.m = 0))
-                /\ (StageOf(Ev.e) = "q" <=> stack = <<>>)
+                /\ (IF Sub THEN (stack = <<>> /\ StageOf(Ev.e) = "x") ELSE (StageOf(Ev.e) = "q" <=> stack = <<>>))
 GStageStartN == /\ IsStart(Ev.e) /\ Ev.i > 1
                 /\ stack # <<>> /\ Top.s = StageOf(Ev.e) /\ Top.n = Ev.i - 1 /\ Top.m = 0
 GStageEnd == /\ IsEnd(Ev.e) /\ stack # <<>> /\ Top.s = StageOf(Ev.e) /\ Top.n = NI /\ Ev.i = NI - Top.m
@@ -71,7 +78,10 @@ MwOut == /\ More /\ GMwOut /\ Consume
          /\ fld' = SetF([FRec(Ev.p) EXCEPT !.out = @ + 1]) /\ UNCHANGED <<stack, seen>>
 FieldEnd == /\ More /\ GFieldEnd /\ Consume
             /\ fld' = SetF([FRec(Ev.p) EXCEPT !.fe = @ + 1]) /\ UNCHANGED <<stack, seen>>
-AnyGuard == GStageStart1 \/ GStageStartN \/ GStageEnd \/ GFieldStart \/ GMwIn \/ GRes \/ GMwOut \/ GFieldEnd
+\* end of the segment of one delivered event (subscriptions): nothing may be left open, the next event starts afresh
+GBoundary == Ev.e = "ev" /\ Sub /\ stack = <<>> /\ "x" \in seen /\ {k \in 1..Len(fld) : fld[k].fe # NI \/ fld[k].out # fld[k].depth} = {}
+Boundary == /\ More /\ GBoundary /\ Consume /\ fld' = <<>> /\ UNCHANGED <<stack, seen>>
+AnyGuard == GBoundary \/ GStageStart1 \/ GStageStartN \/ GStageEnd \/ GFieldStart \/ GMwIn \/ GRes \/ GMwOut \/ GFieldEnd
 Reject == /\ More /\ ~AnyGuard /\ verdict' = "rejected-at-event" /\ UNCHANGED <<tid, l, stack, fld, seen>>
 \* terminal condition once every event is consumed
 OpenFields == {k \in 1..Len(fld) : fld[k].fe # NI \/ fld[k].out # fld[k].depth}
@@ -81,7 +91,7 @@ Finish == /\ verdict = "run" /\ l = Len(Tr) + 1
                          ELSE IF OpenFields # {} THEN "field-left-open"
                          ELSE "ok")
           /\ UNCHANGED <<tid, l, stack, fld, seen>>
-Next == StageStart1 \/ StageStartN \/ StageEnd \/ FieldStart \/ MwIn \/ Res \/ MwOut \/ FieldEnd \/ Reject \/ Finish
+Next == Boundary \/ StageStart1 \/ StageStartN \/ StageEnd \/ FieldStart \/ MwIn \/ Res \/ MwOut \/ FieldEnd \/ Reject \/ Finish
 Spec == Init /\ [][Next]_vars
 
 Where == IF l <= Len(Tr) THEN [l |-> l, e |-> Ev.e, i |-> Ev.i, m |-> Ev.m, p |-> Ev.p,
